@@ -1,0 +1,27 @@
+//go:build verif
+
+package ethernet
+
+// Contracts for the link-layer parser (properties C02, C14), checked by /verif/govc.
+//
+//@ func (*Frame).Unmarshal
+//@   check safety
+//@   requires len(data) >= 14
+//@   ensures result == nil
+//@   ensures len(f.Payload) == len(data) - 14 && same(f.Payload, data[14:])
+//@   ensures f.Type == uint16(data[12])<<8 | uint16(data[13])
+//@   modifies f.Type, f.Payload, f.Source[:], f.Destination[:]
+//
+//@ func Parse
+//@   check safety
+//@   requires len(data) >= 14
+//@   ensures result1 == nil && result0 != nil
+//@   ensures len(result0.Source) == 6 && len(result0.Destination) == 6
+//@   ensures len(result0.Payload) == len(data) - 14
+//@   ensures result0.Type == uint16(data[12])<<8 | uint16(data[13])
+//@   modifies nothing
+//
+//@ func (*Frame).Marshal
+//@   check safety
+//@   ensures result1 == nil && len(result0) == 14
+//@   modifies nothing
